@@ -150,6 +150,9 @@ pub fn c06(tier: Tier, seed: u64) -> Verdict {
             }
         }
     }
+    if merged.violation.is_none() {
+        merged.merge(super::histories::run_large_texts("C06"));
+    }
     finish(
         "C06",
         tier,
@@ -389,6 +392,9 @@ pub fn c11(tier: Tier, seed: u64) -> Verdict {
             break;
         }
     }
+    if merged.violation.is_none() {
+        merged.merge(super::histories::run_large_texts("C11"));
+    }
     finish(
         "C11",
         tier,
@@ -506,6 +512,10 @@ pub fn c12(tier: Tier, seed: u64) -> Verdict {
         let p = Profile { w_append: 26, w_static: 10, max_text: 300, ..Profile::faults() };
         let m = run_sharded("C12", seed, 50, nf, || history_strategy(&p), super::enumerators::fault_case("C12", false));
         merged.merge(m);
+    }
+    if merged.violation.is_none() {
+        // growth of texts of several MiB
+        merged.merge(super::histories::run_large_texts("C12"));
     }
     if merged.violation.is_none() {
         // push loops
